@@ -15,7 +15,11 @@ PYTHON = "/venv/bin/python"
 
 def scratch_root() -> Path:
     """Scratch space outside /repo and /verif; prefers /dev/shm."""
-    base = Path("/dev/shm") if Path("/dev/shm").is_dir() else Path(os.environ.get("TMPDIR", "/var/tmp"))
-    p = base / f"pharmpy-verif-{os.getpid()}"
+    run = os.environ.get("VERIF_SCRATCH")  # set by the runner: one directory per run, removed when the run ends
+    if run:
+        p = Path(run) / str(os.getpid())
+    else:
+        base = Path("/dev/shm") if Path("/dev/shm").is_dir() else Path(os.environ.get("TMPDIR", "/var/tmp"))
+        p = base / f"pharmpy-verif-{os.getpid()}"
     p.mkdir(parents=True, exist_ok=True)
     return p
